@@ -181,10 +181,11 @@ struct Builder {
 
     std::vector<Interpolation> wi, oi;
     // width / offset arguments: continuous with the current end values
-    void pick(const Interpolation*& wp, const Interpolation*& op) {
+    void pick(const Interpolation*& wp, const Interpolation*& op, bool no_smooth_off) {
         wi.assign(n, Interpolation{});
         oi.assign(n, Interpolation{});
         int wk = (int)g->below(4), ok = (int)g->below(4);
+        if (no_smooth_off && ok == 2) ok = 1;
         for (uint64_t e = 0; e < n; e++) {
             double cw = rp.elements[e].end_width, co = rp.elements[e].end_offset;
             double tw = fabs(cw - el[e].w0) < 1e-12 ? el[e].w1 : el[e].w0;
@@ -212,12 +213,16 @@ static void one_call(Builder& B, bool allow_corner) {
     RobustPath& rp = B.rp;
     double W = B.Wmax;
     const Interpolation *wp, *op;
-    B.pick(wp, op);
     double h = B.heading;
     bool last_straight = rp.subpath_array.count > 0 && rp.subpath_array[rp.subpath_array.count - 1].type == SubPathType::Segment;
+    if (last_straight)
+        for (uint64_t e = 0; e < B.n; e++)
+            if (rp.elements[e].offset_array[rp.subpath_array.count - 1].type == InterpolationType::Smooth) last_straight = false;
     double turn = 0;
     int kind = (int)g.below(13);
     if ((kind == 0 || kind == 1 || kind == 2) && allow_corner && last_straight && g.chance(60)) turn = ((double)g.range(-60, 60)) * M_PI / 180;
+    // a corner is only made between two sections whose centre lines are straight
+    B.pick(wp, op, kind <= 2);
     Vec2 c = rp.end_point;
     bool rel = g.coin();
     double hh = h + turn;
